@@ -21,7 +21,7 @@ def run_trace_spec(module, recs, tag, nproc=1, timeout=1800, extra_blobs=None, e
             for b in r.get("_blobs", []):
                 blobs.append(b)
         dbl = dbl_entries(blobs + (extra_blobs or []))
-        dbl.append({"x": {"t": "num", "neg": False, "d": [9, 9], "e": 99999}, "y": {"t": "num", "neg": False, "d": [9, 9], "e": 99999}})
+        dbl.append({"x": {"t": "num", "neg": False, "d": [9, 9], "e": 99999}, "y": {"t": "num", "neg": False, "d": [9, 9], "e": 99999}, "ex": False})
         write_ndjson(dp, dbl)
         # strip private keys
         write_ndjson(tp, [{k2: v for k2, v in r.items() if not k2.startswith("_")} for r in part])
